@@ -180,3 +180,112 @@ def _plt(forecast_data, observed_data, num_simulations, random_numbers, normaliz
         if not close(qs, le / S, 1e-12, 1e-12):
             bad.append('quantile %r, fraction of simulated statistics <= observed is %r' % (qs, le / S))
     return bad
+
+
+@oracle('binary_simulate_catalog')
+def _bsim(module, sim_cells, sampling_weights, random_numbers=None, draws=None):
+    """_simulate_catalog of binomial_evaluations / brier_evaluations.
+    random_numbers given: inverse-CDF placement of each number (counts).  random_numbers None: rejection sampling; `draws`
+    (optional) is a list of numbers in [0,1) that numpy.random.uniform returns first (boundary values cannot be reached by
+    seeding), after which the real generator continues: the result must be a 0/1 array with exactly sim_cells ones, none in a
+    bin whose cumulative-rate interval [F(k-1), F(k)) is empty."""
+    import importlib
+    m = importlib.import_module('csep.core.' + module)
+    W = numpy.asarray(sampling_weights, dtype=float)
+    n = int(sim_cells)
+    if len(W) == 0 or numpy.any(numpy.diff(W) < 0) or W[0] < 0 or W[-1] < 1 or n < 0:
+        return []
+    width = numpy.diff(numpy.concatenate([[0.0], W])) > 0
+    if random_numbers is not None:
+        u = numpy.asarray(random_numbers, dtype=float)
+        if len(u) != n or numpy.any(numpy.isnan(u)) or numpy.any(u < 0) or numpy.any(u >= 1):
+            return []
+        args = (n, W, numpy.full(len(W), 7.0)) if module == 'binomial_evaluations' else (n, W)
+        out = call(m._simulate_catalog, *args, random_numbers=u)
+        if out[0] == 'raise':
+            return ['unexpected exception ' + _exc(out)]
+        exp = numpy.zeros(len(W))
+        for x in u.tolist():
+            k = 0
+            while not (x < W[k]):
+                k += 1
+            exp[k] += 1
+        if not numpy.array_equal(numpy.asarray(out[1]), exp):
+            return ['simulated counts %r, inverse-CDF placement of the numbers gives %r (weights %r, numbers %r)'
+                    % (numpy.asarray(out[1]).tolist(), exp.tolist(), W.tolist(), u.tolist())]
+        return []
+    if n > int(width.sum()):
+        return []          # more active cells than positive-rate bins: the sampler cannot terminate (outside the contract)
+    seq = [float(x) for x in (draws or []) if 0.0 <= float(x) < 1.0]
+    real_uniform = numpy.random.uniform
+    state = {'k': 0}
+
+    def fake(low=0.0, high=1.0, size=None):
+        if size is None and state['k'] < len(seq):
+            state['k'] += 1
+            return seq[state['k'] - 1]
+        return real_uniform(low, high, size)
+    numpy.random.seed(12345)
+    numpy.random.uniform = fake
+    try:
+        args = (n, W, numpy.full(len(W), 7.0)) if module == 'binomial_evaluations' else (n, W)
+        out = call(m._simulate_catalog, *args)
+    finally:
+        numpy.random.uniform = real_uniform
+    if out[0] == 'raise':
+        return ['unexpected exception %s (weights %r, first draws %r)' % (_exc(out), W.tolist(), seq)]
+    r = numpy.asarray(out[1], dtype=float)
+    bad = []
+    if r.shape != W.shape:
+        bad.append('result shape %r, weights %r' % (r.shape, W.shape))
+        return bad
+    if not numpy.all((r == 0) | (r == 1)):
+        bad.append('entries other than 0/1: %r' % r.tolist())
+    if r.sum() != n:
+        bad.append('%r active cells, prescribed %d' % (r.sum(), n))
+    if numpy.any((r != 0) & ~width):
+        bad.append('active cell in a zero-rate bin: result %r, weights %r, first draws %r' % (r.tolist(), W.tolist(), seq))
+    return bad
+
+
+@oracle('kernel_test')
+def _kernel_test(kind, rates, counts, num_simulations=1, random_numbers=None, seed=None):
+    """_binary_likelihood_test / _brier_score_test (kind 'binary' | 'brier') on plain arrays: the clauses of C06 / C16 on the
+    triple (quantile, observed score, simulated scores) as judged by rt/oracles_eval.sim_test_ndarray, and for seeded runs
+    reproducibility from two different states of the global generator (every seed, 0 included)"""
+    from . import oracles_eval as oe
+    R = numpy.asarray(rates, dtype=float)
+    C = numpy.asarray(counts, dtype=float)
+    if R.shape != C.shape or R.size == 0 or numpy.any(R < 0) or numpy.any(C < 0) or numpy.any(C != numpy.floor(C)) or not R.sum() > 0:
+        return []
+    if kind == 'binary' and numpy.any(R <= 0):
+        return []
+    n_active = int((C.ravel() != 0).sum())
+    S = int(num_simulations)
+    if S < 1:
+        return []
+    if random_numbers is not None:
+        U = numpy.asarray(random_numbers, dtype=float)
+        U = U.reshape(S, -1) if U.size else U.reshape(S, 0)
+        if U.shape != (S, n_active) or numpy.any(numpy.isnan(U)) or numpy.any(U < 0) or numpy.any(U >= 1):
+            return []
+        return oe._sim_test_ndarray(kind, R.tolist(), C.tolist(), S, U.tolist(), None)
+    if not isinstance(seed, int) or isinstance(seed, bool) or not (0 <= seed < 2 ** 32):
+        return []
+    if n_active > int((R.ravel() > 0).sum()):
+        return []
+    bad = list(oe._sim_test_ndarray(kind, R.tolist(), C.tolist(), S, None, seed))
+    import importlib
+    m = importlib.import_module('csep.core.' + ('binomial_evaluations' if kind == 'binary' else 'brier_evaluations'))
+    fn = m._binary_likelihood_test if kind == 'binary' else m._brier_score_test
+    outs = []
+    for state in (111, 987654):
+        numpy.random.seed(state)
+        numpy.random.rand(3)
+        o = call(fn, R.copy(), C.copy(), num_simulations=S, seed=seed, verbose=False)
+        if o[0] == 'raise':
+            return bad + ['unexpected exception ' + _exc(o)]
+        outs.append((float(o[1][0]), float(o[1][1]), [float(x) for x in o[1][2]]))
+    if outs[0] != outs[1]:
+        bad.append('seed=%r is not honoured: two runs with the same seed give %r and %r' % (seed, outs[0][2][:4], outs[1][2][:4]))
+    return bad
